@@ -370,6 +370,10 @@ func writerFaults(c *mon.Ctx, idx int64, r *rand.Rand) {
 		}
 		ops = append(ops, wop{kind: "data", data: d})
 	}
+	// a unit whose adaptation field leaves no room for the PES header: the field travels in a packet of its own (no payload)
+	pd := gen.Bytes(r, 165+r.IntN(12))
+	ops = append(ops, wop{kind: "data", data: &astits.MuxerData{PID: 0x100, AdaptationField: &astits.PacketAdaptationField{HasTransportPrivateData: true, TransportPrivateData: pd, TransportPrivateDataLength: len(pd), RandomAccessIndicator: r.IntN(2) == 0},
+		PES: &astits.PESData{Header: &astits.PESHeader{StreamID: 0xC0, OptionalHeader: &astits.PESOptionalHeader{MarkerBits: 2, PTSDTSIndicator: 2, PTS: &astits.ClockReference{Base: 90000}}}, Data: gen.Bytes(r, 100+r.IntN(300))}}})
 	pk := gen.RandomPacket(r)
 	ops = append(ops, wop{kind: "packet", pkt: pk})
 	// a short (PSI style) payload the writer pads with 0xFF up to the packet size
